@@ -184,9 +184,23 @@ pub fn build_tree(n: usize, spec: &TreeSpec) -> Box<dyn G> {
             }
         }
     }
-    for nd in &spec.nodes {
-        if let Some(p) = nd.parent {
-            h.bind(spec.nodes[p].id, nd.id, nd.label.as_ref().unwrap().direct());
+    for e in &spec.extras {
+        if e.read {
+            if let Some(d) = &e.data {
+                h.put(e.id, &hex_of(d));
+                let _ = h.data(e.id);
+            }
+        }
+    }
+    for pass in 0..2 {
+        for (i, nd) in spec.nodes.iter().enumerate() {
+            let first = !spec.pairs_first || i % 2 == 1;
+            if (pass == 0) != first {
+                continue;
+            }
+            if let Some(p) = nd.parent {
+                h.bind(spec.nodes[p].id, nd.id, nd.label.as_ref().unwrap().direct());
+            }
         }
     }
     for e in &spec.extras {
@@ -205,8 +219,10 @@ pub fn build_tree(n: usize, spec: &TreeSpec) -> Box<dyn G> {
         }
     }
     for e in &spec.extras {
-        if let Some(d) = &e.data {
-            h.put(e.id, &hex_of(d));
+        if !e.read {
+            if let Some(d) = &e.data {
+                h.put(e.id, &hex_of(d));
+            }
         }
     }
     h
